@@ -24,7 +24,7 @@ if root:
 bj = world.behaviours_json([steps], users, sess, topics + ["sys"], levels=levels)
 tr, _ = world.replay(ctx, bj)
 recs = vlib.read_ndjson(tr)
-def m(x): return "".join(x) if isinstance(x, list) else x
+def m(x): return "".join(x) if isinstance(x, list) and all(isinstance(y, str) for y in x) else x
 for r in recs[1:]:
     a = {k: m(v) for k, v in r["act"].items() if not (k == "chan" and v is False)}
     print(r["i"], a, "->", r["reply"].get("code"))
